@@ -77,11 +77,13 @@ def confirm(v, oracle):
             'what': '%s: %s format(%s)=%r parses to %s' % (v['kind'], v['fmt'], v['shape'], payload.get('text'), json.dumps(payload.get('parsed'), ensure_ascii=False)[:160])}
 
 KEYWORDS = {}
+KW_FULL = {}
 def load_keywords(R):
     it = R.engine.new_interp()
     for f in FORMATS:
         fmt = get_format(it, f)
         KEYWORDS[f] = fmt_strings(fmt)
+        KW_FULL[f] = keyword_table(it, fmt)
 
 def classify(v):
     """role of a counterexample (used as the known-findings key, so unrelated failures keep distinct keys)"""
@@ -101,6 +103,13 @@ def classify(v):
                 tx = text if isinstance(text, str) else ''.join(chr(c) for c in text)
                 if any(k.startswith(n[i:]) and len(n[i:]) < len(k) for i in range(len(n))) and tx.rstrip().endswith(n):
                     return 'name-ends-input-with-copula-prefix'
+    kwf = KW_FULL.get(v['fmt'])
+    if kwf:
+        bl, br = kwf['task.budget_brackets']
+        for n in names:
+            # a name that itself reads as a (possibly empty) budget: opening bracket, digits/separators, closing bracket
+            if bl and n.startswith(bl) and br in n[len(bl):] and all(ch.isdigit() or ch in '.' + kwf['task.budget_separator'] for ch in n[len(bl):n.index(br, len(bl))]):
+                return 'name-reads-as-budget'
     cls = ''.join('d' if ch.isdigit() else 'a' if ch.isalnum() else 'p' for n in names for ch in n)
     return 'other:%s:%s' % (v['shape'], cls)
 
